@@ -209,6 +209,7 @@ class Setting:
             (r"^Decoder::<'_>::\w+$", self.m_typed_decode),
             (r"^(spirv::)?\w+::from_u32$", self.m_from_u32),
             (r"<impl (spirv::)?\w+>::from_bits$", self.m_from_bits),
+            (r"<impl (spirv::)?\w+>::bits$", lambda en, st, fr, cl, a, o: sym._deref_arg(en, st, a[0]) if isinstance(a[0], sym.Ref) else a[0]),
             (r"<impl (spirv::)?\w+>::from_bits_(truncate|retain)$", self.m_from_bits_truncate),
             (r"<impl (spirv::)?\w+>::contains$", self.m_contains),
             (r"^Parser::<'_, '_>::\w+$", self.m_parser_method),
